@@ -37,6 +37,38 @@ def copies_of(fn, local, allow_not=True):
     return pol
 
 
+def feeders_of(fn, local=0):
+    """locals whose value is moved/copied (whole) into `local`, transitively: `_0 = move _7; _7 = move _31` -> {0, 7, 31}.
+    The return value of a spliced helper reaches the caller's result this way."""
+    out = {local}
+    changed = True
+    while changed:
+        changed = False
+        for b, j, pl, rv, meta in fn.assigns():
+            if pl["p"] or pl["l"] not in out or rv["k"] != "use":
+                continue
+            src = op_place(rv["ops"][0])
+            if src is not None and not src["p"] and src["l"] not in out:
+                out.add(src["l"])
+                changed = True
+    return out
+
+
+def result_blocks(fn, variant):
+    """blocks that build the function's result as `variant` (Ok / Err): an aggregate assigned to the return place or to a local
+    that is moved into it, and for Err also `?` (from_residual written to such a local)"""
+    feed = feeders_of(fn, 0)
+    out = set()
+    for b, j, pl, rv, meta in fn.assigns():
+        if pl["l"] in feed and not pl["p"] and rv["k"] == "agg" and rv.get("variant") == variant:
+            out.add(b)
+    if variant == "Err":
+        for b, t in fn.calls():
+            if callee(t).endswith("::from_residual") and t["dest"]["l"] in feed and not t["dest"]["p"]:
+                out.add(b)
+    return out
+
+
 def bool_switches(fn, local):
     """[(bb, false_target, true_target)] for every switch deciding on the bool held in `local`"""
     pol = copies_of(fn, local)
